@@ -409,3 +409,56 @@ def run(prog, chk):
     # registration table of C13.d decides that clause as well
     from . import c13
     c13.run(prog, Only(chk, "C13.d", "C14.T9"))
+    backlinks_cleared_before_removal(prog, chk, "C14.T10")
+
+
+def backlinks_cleared_before_removal(prog, chk, rid):
+    """A pending host-name resolution and its establisher point at each other (Resolver::establisher, EstablisherImpl::resolver).  The
+    pools hand removed slots out again: whichever of the two goes first has to clear the other side's pointer, otherwise the survivor
+    later writes through it into a slot that belongs to somebody else (and detaches that one's resolution - it is never dispatched)."""
+    chk.rule(rid, "PAIRF/MPT: every path to `_resolvers.remove(r)` on which r.establisher is not known null stores 0 into that "
+                  "establisher's `resolver`; every path to `_establishers.remove(e)` on which e.resolver is not known null stores 0 "
+                  "into that resolver's `establisher`", floor=2)
+    n = 0
+    for f in [g for g in prog.functions.values() if g.gname.startswith(P) and g.blocks and g.file.endswith("Server.cpp")]:
+        for c in q.calls(f):
+            callee = f.nodes[c].get("callee") or ""
+            o = q.call_object(f, c)
+            if not callee.endswith("::remove") or o is None:
+                continue
+            pool = q.no_casts(f.r(o))
+            if pool == "this->_resolvers":
+                link, back = "establisher", "resolver"
+            elif pool == "this->_establishers":
+                link, back = "resolver", "establisher"
+            else:
+                continue
+            args = q.call_args(f, c)
+            if not args:
+                continue
+            n += 1
+            obj = q.no_casts(f.r(args[0])).strip("()")
+            objs = {obj, q.no_casts(q.xr(f, args[0])).strip("()")}       # the object as written and with reference locals followed
+            alt = "|".join(re.escape(o_) for o_ in sorted(objs))
+            lk = re.compile(r"^\(?\*?(%s)\)?(\.|->)%s$" % (alt, link))
+            # edges on which the link is known null need no clearing
+            cut = set()
+            for b_ in f.blocks.values():
+                nt = fin.null_test(f, b_.get("cond")) if len(b_["succ"]) == 2 and b_.get("tk") != "SwitchStmt" else None
+                if nt is not None and lk.match(q.no_casts(nt[0])) and b_["succ"][nt[1]] is not None:
+                    cut.add((b_["id"], b_["succ"][nt[1]]))
+            clears = [s_.node for s_ in q.stores(f) if s_.op == "=" and s_.rhs is not None and q.is_zero(f, s_.rhs) and
+                      re.search(r"(\.|->)%s$" % back, q.no_casts(f.r(s_.lhs))) and
+                      re.search(r"(^|[^\w>.])\*?\(?(%s)\)?(\.|->)%s(\W|$)" % (alt, link), q.no_casts(q.xr(f, f.nodes[s_.lhs]["c"][0])) + " ")]
+            path = fin.path_with_cuts(f, f.entry_pos(), f.node_pos(c), avoid=q.pos_of(f, clears), cut=cut, after_src=False)
+            if path is None:
+                chk.ok(rid, f, "%s.remove(%s): the other side's `%s` is cleared first (or `%s` is null)" % (pool, obj, back, link), f.where(c),
+                       "no path to the removal avoids the clearing store and the null edges", evals=2)
+            else:
+                chk.bad(rid, f, "backlink-not-cleared:" + back, f.where(c),
+                        "`%s` is released on a path (lines %s) that leaves the `%s` pointer of its %s pointing at it: the pool hands the slot "
+                        "out again, and when the survivor is removed it writes through the stale pointer into the new owner - that "
+                        "owner's resolution result is dropped and its onConnected/onAbolished never comes" % (
+                            obj, f.path_lines(path)[-8:], back, link), f.path_lines(path), evals=2)
+    if n < 2:
+        raise AnalysisBroken("removals from _resolvers / _establishers: %d found, 2 expected" % n)
